@@ -33,7 +33,7 @@ type vfC17Case struct {
 	Ops []vfLOp `json:"ops"`
 }
 
-var vfUseMethods = []string{"add", "add_with_id", "remove", "search", "train", "flush", "close", "trigger_compaction", "getters", "write_to", "read_from"}
+var vfUseMethods = []string{"add", "add_with_id", "remove", "search", "train", "flush", "close", "trigger_compaction", "getters", "write_to", "read_from", "add_refused", "add_with_id_refused"}
 
 func vfC17Gen(rt *rapid.T) vfC17Case {
 	opGen := rapid.Custom(func(rt *rapid.T) vfLOp {
@@ -99,6 +99,13 @@ func vfUseHandle(st *PersistentHybridIndex, method string, n int) (err error, re
 		return err, true
 	case "add_with_id":
 		return st.AddWithID(uint32(1<<30+n), []float32{2, float32(n)}, "tok use", map[string]interface{}{"n": n}), true
+	case "add_refused":
+		// refused on an open handle as well (wrong dimension): it must not leave anything behind that a
+		// later Close would wait for
+		_, err = st.Add([]float32{1, 2, 3, 4, 5}, "tok use", map[string]interface{}{"n": n})
+		return err, true
+	case "add_with_id_refused":
+		return st.AddWithID(uint32(1<<30+n), []float32{1}, "tok use", map[string]interface{}{"bad": struct{}{}}), true
 	case "remove":
 		// Remove of an unknown id errs on an open store too; only the closed case is asserted
 		return st.Remove(uint32(1<<30 + n)), true
